@@ -71,6 +71,8 @@ type tokenParams struct {
 	unpruned int // all sequences up to this length are visited, pruned or not (validates the pruning)
 	fullCfgs int // sequences up to this length are parsed under all four configurations, longer ones under the two diagonal ones
 	alphabet []string
+	minVisit int    // only sequences of at least this length are evaluated (shorter ones belong to another enumeration)
+	label    string // group name prefix
 }
 
 var diagonalCfgs = []Cfg{{false, false}, {true, true}}
@@ -93,7 +95,7 @@ func tokenGroups(tp tokenParams) []group {
 			prefix[k] = x % n
 			x /= n
 		}
-		gs = append(gs, group{"text/" + fmt.Sprint(prefix), func(c *mc.Ctx, emit func(*Case)) {
+		gs = append(gs, group{"text" + tp.label + "/" + fmt.Sprint(prefix), func(c *mc.Ctx, emit func(*Case)) {
 			e := &tokenEnum{c: c, emit: emit, tp: tp}
 			text := ""
 			dead := false
@@ -131,11 +133,8 @@ func tokenGroups(tp tokenParams) []group {
 	return gs
 }
 
-func tokensOf(tier string) []string {
-	if tier == "thorough" {
-		return tokenAlphabet
-	}
-	// quick: the 23 tokens of the design (without the comparators "<" and ">=")
+// designTokens: the 23 tokens of the design (the full alphabet without the comparators "<" and ">=").
+func designTokens() []string {
 	var out []string
 	for _, t := range tokenAlphabet {
 		if t != "<" && t != ">=" {
@@ -155,6 +154,9 @@ type tokenEnum struct {
 // other three unless the first one failed with a syntax error on a text that cannot be a phone
 // number (syntax does not depend on the configuration).
 func (e *tokenEnum) visit(text string, seq []int, dead bool) {
+	if len(seq) < e.tp.minVisit {
+		return
+	}
 	e.c.Inc("text:sequences")
 	cfgs := allCfgs
 	if len(seq) > e.tp.fullCfgs {
@@ -408,19 +410,22 @@ func allGroups(tier string) []group {
 	var gs []group
 	twoCfgs := diagonalCfgs
 	if tier == "thorough" {
-		gs = append(gs, tokenGroups(tokenParams{maxLen: 6, unpruned: 4, fullCfgs: 5, alphabet: tokensOf(tier)})...)
+		// all 25 tokens up to length 5 under all four configurations, and length 6 over the 23 design
+		// tokens under the diagonal configurations (shorter sequences over 23 tokens are a subset of the former)
+		gs = append(gs, tokenGroups(tokenParams{maxLen: 5, unpruned: 4, fullCfgs: 5, alphabet: tokenAlphabet})...)
+		gs = append(gs, tokenGroups(tokenParams{maxLen: 6, unpruned: 0, fullCfgs: 0, alphabet: designTokens(), minVisit: 6, label: "6"})...)
 		gs = append(gs, constructedGroups("constructed-long", selectedShapes(), sigma, 5, twoCfgs)...)
 		gs = append(gs, constructedGroups("constructed-all-shapes", shapes(), sigmaPlus, 2, allCfgs)...)
 		gs = append(gs, constructedGroups("constructed-all-shapes-3", shapes(), sigma, 3, twoCfgs)...)
 		gs = append(gs, constructedPairGroups(sigmaPlus, 2, allCfgs)...)
-		gs = append(gs, constructedPairGroups(sigma, 3, twoCfgs)...)
+		gs = append(gs, constructedPairGroups(sigma, 3, twoCfgs[:1])...)
 		gs = append(gs, templateGroups(sigma, 5, twoCfgs)...)
 		gs = append(gs, templatePairGroups("template", sigmaPlus, 2, allCfgs)...)
-		gs = append(gs, templatePairGroups("template", sigma, 3, twoCfgs)...)
+		gs = append(gs, templatePairGroups("template", sigma, 3, twoCfgs[:1])...)
 		gs = append(gs, templatePairGroups("engine", sigmaPlus, 2, twoCfgs)...)
 		return gs
 	}
-	gs = append(gs, tokenGroups(tokenParams{maxLen: 5, unpruned: 3, fullCfgs: 4, alphabet: tokensOf(tier)})...)
+	gs = append(gs, tokenGroups(tokenParams{maxLen: 5, unpruned: 3, fullCfgs: 4, alphabet: designTokens()})...)
 	gs = append(gs, constructedGroups("constructed-long", selectedShapes(), sigma, 4, twoCfgs)...)
 	gs = append(gs, constructedGroups("constructed-all-shapes", shapes(), sigmaPlus, 2, twoCfgs)...)
 	gs = append(gs, constructedPairGroups(sigmaPlus, 2, allCfgs)...)
@@ -535,7 +540,11 @@ func guards(r *mc.Result, tier string) []string {
 			f = append(f, "never observed: "+fact)
 		}
 	}
-	for _, t := range tokensOf(tier) {
+	toks := designTokens()
+	if tier == "thorough" {
+		toks = tokenAlphabet
+	}
+	for _, t := range toks {
 		need("tok:" + t)
 	}
 	maxLen := 5
@@ -571,9 +580,9 @@ func init() {
 		ID:    "C14",
 		Level: "exploration",
 		Rule: "every case runs the real contactql.ParseQuery / Condition.String / Stringify / excellent template evaluator with flows.ContactQueryEscaping / engine actions; configurations = 2 redaction policies x {no resolver, mock resolver} (4; 'diagonal' = the 2 that still vary both). " +
-			"(i) every space-joined sequence of <= 5 tokens over 23 tokens (quick; 4 configurations up to length 4, diagonal at 5) / <= 6 over 25 tokens (thorough; 4 configurations up to 5, diagonal at 6): 5 properties, comparators = != ~ > <= (+ < >= thorough) and aliases has/is, AND, or, parentheses, 7 bare/quoted literals incl. one with an escaped quote and a trailing escaped backslash; subtrees are skipped only below prefixes the generated parser proves dead (first syntax error at a non-EOF token in the lexically stable part, text not phone-like), which is validated by visiting every sequence <= 3/4 regardless; each accepted query is formatted and re-parsed and the two trees are compared node by node; " +
-			"(ii) NewCondition/NewBoolCombination trees: all 311 shapes of depth <= 2 (root arity 1-3; children: a condition or a 1-2-condition combination) x every string <= 2 over a 15-symbol alphabet (thorough also <= 3 over the 11-symbol one) as the value at every position x 2 context values; 8 selected shapes x every string <= 4/5 over the 11 symbols {\" \\ space a O R ( ) = 1 e-acute}; all pairs of strings <= 2 (thorough also <= 3) at two positions of 5 shapes: Parse(Stringify(n)) must equal n's reference normal form (n itself when already flat); " +
-			"(iii) 6 templates x the same values at each position with 2 context values, and all value pairs <= 2/3, evaluated by the real template evaluator with the engine's escaping: the parsed text must be exactly the template's tree with the values as its literals; (iv) the same templates as contact_query of real start_session and send_broadcast actions in a real session for all value pairs <= 1/2 symbols. " +
+			"(i) every space-joined sequence of <= 5 tokens over 23 tokens (quick; 4 configurations up to length 4, diagonal at 5); thorough: <= 5 over 25 tokens under all 4 configurations plus length 6 over the 23 tokens under the diagonal ones: 5 properties, comparators = != ~ > <= (+ < >= thorough) and aliases has/is, AND, or, parentheses, 7 bare/quoted literals incl. one with an escaped quote and a trailing escaped backslash; subtrees are skipped only below prefixes the generated parser proves dead (first syntax error at a non-EOF token in the lexically stable part, text not phone-like), which is validated by visiting every sequence <= 3/4 regardless; each accepted query is formatted and re-parsed and the two trees are compared node by node; " +
+			"(ii) NewCondition/NewBoolCombination trees: all 311 shapes of depth <= 2 (root arity 1-3; children: a condition or a 1-2-condition combination) x every string <= 2 over a 15-symbol alphabet (thorough also <= 3 over the 11-symbol one) as the value at every position x 2 context values; 8 selected shapes x every string <= 4/5 over the 11 symbols {\" \\ space a O R ( ) = 1 e-acute}; all pairs of strings <= 2 (thorough also <= 3, one configuration) at two positions of 5 shapes: Parse(Stringify(n)) must equal n's reference normal form (n itself when already flat); " +
+			"(iii) 6 templates x the same values at each position with 2 context values, and all value pairs <= 2 (thorough also <= 3, one configuration), evaluated by the real template evaluator with the engine's escaping: the parsed text must be exactly the template's tree with the values as its literals; (iv) the same templates as contact_query of real start_session and send_broadcast actions in a real session for all value pairs <= 1/2 symbols. " +
 			"distinct_nontrivial counts accepted (sequence, configuration) pairs, constructed queries and substituted templates (each a distinct tuple); evaluations counts ParseQuery calls.",
 		Assumptions: []string{
 			"bounded token alphabet, sequence length, value alphabet and value length as stated; values are valid UTF-8",
@@ -583,6 +592,6 @@ func init() {
 		Run:    run,
 		Replay: replayFn,
 		Guards: guards,
-		Budget: map[string]time.Duration{"quick": 10 * time.Minute, "thorough": 30 * time.Minute},
+		Budget: map[string]time.Duration{"quick": 6 * time.Minute, "thorough": 25 * time.Minute},
 	})
 }
